@@ -507,6 +507,21 @@ func c19Evaluate(o *vh.Oracle, r *vh.Result, c *c19Case) error {
 		r.Fail("predicate", c.Decoder+"/"+how, fmt.Sprintf("%s decoder: %s on %d bytes of input (%s)", c.Decoder, c.Impl.Status[6:], len(in), c.Gen), c)
 		return nil
 	}
+	// "malformed input yields an error": an index whose table has an end offset below the preceding one
+	// (read off the bytes at the fixed caibx offsets) describes no blob and must be refused, whatever
+	// maximum chunk size the file declares for itself
+	if (c.Decoder == "index" || c.Decoder == "httpput") && st == "end" {
+		if ref, complete := c04RefParse(in); complete && ref.HdrType == c04IndexType && ref.TblType == c04TableType {
+			var last uint64
+			for i, off := range ref.Offsets {
+				if off < last {
+					r.Fail("predicate", c.Decoder+"/accepts-decreasing-offsets", fmt.Sprintf("%s decoder accepted an index whose row %d ends at %d, before the preceding row's end %d (declared max %d; %s)", c.Decoder, i, off, last, ref.Max, c.Gen), c)
+					break
+				}
+				last = off
+			}
+		}
+	}
 	bound := uint64(c19AllocFactor*len(in) + c19AllocConst)
 	if c.Decoder == "server" {
 		// serving a chunk compresses it (zstd EncodeAll): work per reply sent, not per input byte
@@ -911,6 +926,50 @@ func c19Generate(a vh.Args, rng *vh.Rand) []*c19Case {
 		add("archive", fmt.Sprintf("nameless-entry@root-only,kind=%d", k), append(append([]byte{}, root[:0]...), nameless...))
 		add("archive", fmt.Sprintf("nameless-entry@after-root,kind=%d", k), append(append([]byte{}, root...), append(c19Goodbye(0, rng), nameless...)...))
 		add("archive", fmt.Sprintf("nameless-entry@after-file,kind=%d", k), append(append(append([]byte{}, root...), named...), append(nameless, c19Goodbye(0, rng)...)...))
+	}
+	// index tables with ONE decreasing end offset, at every row position, under declared maxima around the
+	// value the wrapped unsigned difference takes
+	for _, nrows := range []int{1, 2, 5} {
+		for j := 0; j < nrows; j++ {
+			offs := make([]uint64, nrows)
+			for i := range offs {
+				offs[i] = uint64(1000 * (i + 2))
+			}
+			prev := uint64(0)
+			if j > 0 {
+				prev = offs[j-1]
+			}
+			var cur uint64
+			if j == 0 {
+				continue // the first row has nothing before it to fall below (offset 0 is the terminator)
+			}
+			cur = prev - uint64(1+rng.Intn(900))
+			offs[j] = cur
+			if j+1 < nrows {
+				offs[j+1] = cur + 500 // the rows behind it increase again
+				for i := j + 2; i < nrows; i++ {
+					offs[i] = offs[i-1] + 500
+				}
+			}
+			wrapped := cur - prev // 2^64 - (prev - cur)
+			for _, mx := range []uint64{1000, 1 << 32, 1 << 63, 1<<64 - 1, wrapped, wrapped - 1} {
+				for _, digest := range []string{"sha256", "sha512-256"} {
+					flags := uint64(0)
+					if digest != "sha256" {
+						flags = c04SHA512Flag
+					}
+					f := le64(48, desync.CaFormatIndex, flags, 1, 500, mx, 1<<64-1, desync.CaFormatTable)
+					for _, o := range offs {
+						f = append(f, le64(o)...)
+						f = append(f, rng.Bytes(32)...)
+					}
+					f = append(f, le64(0, 0, 48, uint64(16+40*nrows+40), c04TailMarker)...)
+					gen := fmt.Sprintf("decreasing-offset@rows=%d,row=%d,max=%d", nrows, j, mx)
+					cases = append(cases, &c19Case{Decoder: "index", Digest: digest, InputHex: vh.Hex(f), Gen: gen},
+						&c19Case{Decoder: "httpput", Digest: digest, InputHex: vh.Hex(f), Gen: gen})
+				}
+			}
+		}
 	}
 	// 3. random bytes, random bytes behind a valid type word
 	nrand := 60
